@@ -763,8 +763,10 @@ where
                 .get_direct::<Azks>(&crate::append_only_zks::DEFAULT_AZKS_KEY)
                 .await?
         } else {
+            // The epoch record of a publish which is currently underway (through a clone of this
+            // directory) only becomes visible once the publish is committed
             storage
-                .get::<Azks>(&crate::append_only_zks::DEFAULT_AZKS_KEY)
+                .get_committed::<Azks>(&crate::append_only_zks::DEFAULT_AZKS_KEY)
                 .await?
         };
         match got {
